@@ -447,7 +447,8 @@ Proof.
     rewrite <- Ua, <- Ub in HG'.
     set (a' := unwrap F a) in *. set (b' := unwrap F b) in *.
     destruct (is_none a' || is_none b').
-    { injection HF' as HF'. injection HG' as HG'. subst eG. refine (rep_atoms_mono _ _ _ _ _ _ _ _ _ _ _ _ HF'); reflexivity. }
+    { injection HF' as HF'. injection HG' as HG'. subst eG.
+      destruct (is_none a' && is_none b'); [reflexivity|]. refine (rep_atoms_mono _ _ _ _ _ _ _ _ _ _ _ _ HF'); reflexivity. }
     destruct (o_nan F && is_nan a' && str_is_nan b') eqn:En.
     + apply andb_true_iff in En. destruct En as [En E2]. apply andb_true_iff in En. destruct En as [E0 E1].
       rewrite (le_nan F G HFG E0), E1, E2 in HG'. injection HG' as HG'. subst; reflexivity.
@@ -567,7 +568,7 @@ Proof.
   destruct (ty_eqb _ _).
   - destruct (o_nan H && _ && _); [okp; apply at_path_nil|]. eapply dispatch_path; exact E.
   - destruct (negb _ && negb _); [okp; apply rep_atoms_path|].
-    destruct (is_none _ || is_none _); [okp; apply rep_atoms_path|].
+    destruct (is_none _ || is_none _); [okp; apply at_path_if; [apply at_path_nil|apply rep_atoms_path]|].
     destruct (o_nan H && _ && _); [okp; apply at_path_nil|]. eapply dispatch_path; exact E.
 Qed.
 
